@@ -320,29 +320,39 @@ theorem adjustFlagsForTag_TFrame (hlog : Logging ctl log) (d : Disp γ) (lx : Ta
   obtain ⟨a, _, c, e, _⟩ := adjustFlagsForTag_LFrame (inp := inp) hlog d lx
   exact ⟨a, c, e⟩
 
+/-- the flag-adjustment step of `handle_tag` on a closed node -/
+theorem adjustStep_T (hlog : Logging ctl log) (lx : TagLexeme) (d1 : Disp γ) (hd1 : TInv log d1)
+    (hp1 : d1.textPending = false) :
+    OkD (fun d' => TInv log d' ∧ d'.textPending = false)
+      (if d1.gotFlagsFromHint then (({ d1 with gotFlagsFromHint := false }, .ok ()) : DRes γ Unit)
+       else d1.adjustFlagsForTag ctl inp lx) := by
+  split
+  · intro a _
+    exact ⟨hd1.frame rfl rfl rfl (fun _ => rfl), hp1⟩
+  · intro a _
+    obtain ⟨a1, a2, a3⟩ := adjustFlagsForTag_TFrame (inp := inp) hlog d1 lx
+    exact ⟨hd1.frame a1 a2 a3 (fun hp => by rw [hp1] at hp; simp at hp), by rw [a2]; exact hp1⟩
+
+theorem resumeEmission_T (lx : TagLexeme) (d2 : Disp γ) (hd2 : TInv log d2) (hp2 : d2.textPending = false) :
+    TInv log (d2.resumeEmission ctl lx) ∧ (d2.resumeEmission ctl lx).textPending = false := by
+  unfold Disp.resumeEmission
+  split
+  · exact ⟨hd2.frame rfl rfl rfl (fun _ => rfl), hp2⟩
+  · exact ⟨hd2, hp2⟩
+
 /-- `handle_tag`: closes the open node; the node is closed afterwards -/
 theorem handleTag_T (hlog : Logging ctl log) (lx : TagLexeme) (d : Disp γ) (h : TInv log d) :
     OkD (fun d' => TInv log d' ∧ d'.textPending = false) (Disp.handleTag ctl inp lx d) := by
   unfold Disp.handleTag
   refine OkD.bind (flushPendingText_T hlog d h) ?_
   intro d1 _ ⟨hd1, hp1, _⟩
-  refine OkD.bind (Q := fun d' => TInv log d' ∧ d'.textPending = false) ?_ ?_
-  · split
-    · intro a _
-      exact ⟨hd1.frame rfl rfl rfl (fun _ => rfl), hp1⟩
-    · intro a _
-      obtain ⟨a1, a2, a3⟩ := adjustFlagsForTag_TFrame (inp := inp) hlog d1 lx
-      exact ⟨hd1.frame a1 a2 a3 (fun hp => by rw [hp1] at hp; simp at hp), by rw [a2]; exact hp1⟩
-  · intro d2 _ ⟨hd2, hp2⟩
-    have hres : TInv log (d2.resumeEmission ctl lx) ∧ (d2.resumeEmission ctl lx).textPending = false := by
-      unfold Disp.resumeEmission
-      split
-      · exact ⟨hd2.frame rfl rfl rfl (fun _ => rfl), hp2⟩
-      · exact ⟨hd2, hp2⟩
-    refine OkD.bind (produceTag_T (inp := inp) hlog _ lx hres.2 hres.1) ?_
-    intro d3 _ ⟨hd3, hp3⟩
-    intro a _
-    exact ⟨hd3.frame rfl rfl rfl (fun _ => rfl), hp3⟩
+  refine OkD.bind (adjustStep_T hlog lx d1 hd1 hp1) ?_
+  intro d2 _ ⟨hd2, hp2⟩
+  have hres := resumeEmission_T (ctl := ctl) lx d2 hd2 hp2
+  refine OkD.bind (produceTag_T (inp := inp) hlog _ lx hres.2 hres.1) ?_
+  intro d3 _ ⟨hd3, hp3⟩
+  intro a _
+  exact ⟨hd3.frame rfl rfl rfl (fun _ => rfl), hp3⟩
 
 theorem startTagHint_T (hlog : Logging ctl log) (name : LocalName) (ns : Ns) (d : Disp γ) (h : TInv log d)
     (hnp : d.textPending = false) :
@@ -363,8 +373,169 @@ theorem endTagHint_T (hlog : Logging ctl log) (name : LocalName) (d : Disp γ) (
   dsimp only
   exact ⟨hd1.frame (by simp [Disp.applyHintFlags, hlog.endTag]) rfl rfl (fun hp => by rw [hp1] at hp; simp at hp), hp1⟩
 
+/-! ### The error side: whatever the outcome, the tokens handed over so far are contiguous -/
+
+theorem contig_bind {α β : Type} {Q : Disp γ → Prop} {r : DRes γ α} {f : Disp γ → α → DRes γ β}
+    (hok : OkD Q r) (hc : Contig (log r.1.ctl)) (hf : ∀ d a, Q d → Contig (log (f d a).1.ctl)) :
+    Contig (log (DRes.bind r f).1.ctl) := by
+  unfold DRes.bind
+  split
+  · exact hc
+  · rename_i a ha; exact hf _ _ (hok a ha)
+
+theorem flushPendingText_C (hlog : Logging ctl log) (d : Disp γ) (h : TInv log d) :
+    Contig (log (d.flushPendingText ctl).1.ctl) := by
+  unfold Disp.flushPendingText
+  split
+  · rename_i hp
+    obtain ⟨_, b, tt, s, hlast, hend⟩ := h.open_ hp
+    rw [(tokenProduced_log hlog _ _).1]
+    show Contig (log d.ctl ++ [_])
+    apply h.contig.snoc
+    intro a' ha'
+    rw [hlast] at ha'
+    simp only [Option.some.injEq] at ha'
+    subst ha'
+    simp only [Link]
+    exact hend.symm
+  · exact h.contig
+
+theorem flushEncodingChange_ctl (d0 : Disp γ) : d0.flushEncodingChange.ctl = d0.ctl := by
+  unfold Disp.flushEncodingChange; (repeat' split) <;> simp
+
+theorem emitToken_C (hlog : Logging ctl log) (d : Disp γ) (raw : Range) (tok : Token)
+    (hnp : d.textPending = false) (h : TInv log d) : Contig (log (d.emitToken ctl inp raw tok).1.ctl) := by
+  unfold Disp.emitToken
+  cases he : d.emitChunkBefore inp raw with
+  | error e => simp only [DRes.ofExcept, DRes.bind]; exact h.contig
+  | ok d1 =>
+    obtain ⟨e1, _⟩ := emitChunkBefore_frame he
+    simp only [DRes.ofExcept, DRes.bind]
+    have hc : Contig (log (Disp.tokenProduced ctl d1 tok).1.ctl) := by
+      rw [(tokenProduced_log hlog d1 tok).1, e1]
+      exact h.contig.snoc (fun a' ha' => Link.of_not_open (h.closed hnp a' ha'))
+    cases hres : (Disp.tokenProduced ctl d1 tok).2 with
+    | error e => exact hc
+    | ok u =>
+      simp only
+      rw [flushEncodingChange_ctl]
+      exact hc
+
+theorem produceTag_C (hlog : Logging ctl log) (d : Disp γ) (lx : TagLexeme) (hnp : d.textPending = false)
+    (h : TInv log d) : Contig (log (d.produceTag ctl inp lx).1.ctl) := by
+  unfold Disp.produceTag
+  split
+  · exact h.contig
+  · rename_i ft hft
+    split
+    · exact h.contig
+    · exact emitToken_C hlog { d with flags := ft.1 } lx.raw _ hnp
+        (h.frame rfl rfl rfl (fun hp => by rw [hnp] at hp; simp at hp))
+
+theorem produceText_C (hlog : Logging ctl log) (d : Disp γ) (ls e : Nat) (o : Option NonTagOutline) (tt : TextType)
+    (hadj : d.textPending = true → pc + ls = d.textPendingStart) (h : TInv log d) :
+    Contig (log (d.produceText ctl inp ⟨pc, ⟨ls, e⟩, o⟩ tt).1.ctl) := by
+  unfold Disp.produceText
+  simp only
+  split
+  · exact h.contig
+  · rename_i rawb hraw
+    cases he : d.emitChunkBefore inp ⟨ls, e⟩ with
+    | error err => simp only [DRes.ofExcept, DRes.bind]; exact h.contig
+    | ok d1 =>
+      obtain ⟨e1, _⟩ := emitChunkBefore_frame he
+      simp only [DRes.ofExcept, DRes.bind]
+      have hc : Contig (log (Disp.tokenProduced ctl { d1 with lastTextType := tt }
+          (.text rawb tt false (srcOf pc ⟨ls, e⟩))).1.ctl) := by
+        rw [(tokenProduced_log hlog _ _).1]
+        simp only
+        rw [e1]
+        apply h.contig.snoc
+        intro a' ha'
+        by_cases hp : d.textPending = true
+        · obtain ⟨_, b, tt', s, hlast, hend⟩ := h.open_ hp
+          rw [hlast] at ha'
+          simp only [Option.some.injEq] at ha'
+          subst ha'
+          simp only [Link, srcOf]
+          rw [hadj hp, hend]
+        · exact Link.of_not_open (h.closed (by simpa using hp) a' ha')
+      cases hres : (Disp.tokenProduced ctl { d1 with lastTextType := tt } (.text rawb tt false (srcOf pc ⟨ls, e⟩))).2 with
+      | error err => exact hc
+      | ok u => exact hc
+
+theorem handleNonTag_C (hlog : Logging ctl log) (ls e : Nat) (o : Option NonTagOutline) (d : Disp γ)
+    (h : TV log pc (some ls) d) : Contig (log (Disp.handleNonTag ctl inp ⟨pc, ⟨ls, e⟩, o⟩ d).1.ctl) := by
+  obtain ⟨hT, hadj⟩ := h
+  simp only at hadj
+  have nontext : (∀ tt, o ≠ some (.text tt)) →
+      Contig (log (Disp.handleNonTag ctl inp ⟨pc, ⟨ls, e⟩, o⟩ d).1.ctl) := by
+    intro hne
+    have hnt : (⟨pc, ⟨ls, e⟩, o⟩ : NonTagLexeme).isText = false := by
+      cases o with
+      | none => rfl
+      | some ot => cases ot <;> first | rfl | exact absurd rfl (hne _)
+    unfold Disp.handleNonTag
+    rw [hnt]
+    simp only [Bool.false_eq_true, if_false]
+    refine contig_bind (flushPendingText_T hlog d hT) (flushPendingText_C hlog d hT) ?_
+    intro d1 _ ⟨hd1, hp1, _⟩
+    unfold Disp.produceNonTag
+    simp only
+    split
+    · exact hd1.contig
+    · exact hd1.contig
+    · exact emitToken_C hlog d1 ⟨ls, e⟩ _ hp1 hd1
+  cases o with
+  | none => exact nontext (by intro tt hh; simp at hh)
+  | some ot =>
+    cases ot with
+    | comment t => exact nontext (by intro tt hh; simp at hh)
+    | doctype t => exact nontext (by intro tt hh; simp at hh)
+    | eof => exact nontext (by intro tt hh; simp at hh)
+    | text tt' =>
+      unfold Disp.handleNonTag
+      simp only [NonTagLexeme.isText, if_true]
+      unfold DRes.bind
+      simp only
+      unfold Disp.produceNonTag
+      simp only
+      split
+      · exact produceText_C hlog d ls e _ tt' hadj hT
+      · exact hT.contig
+
+theorem handleTag_C (hlog : Logging ctl log) (lx : TagLexeme) (d : Disp γ) (h : TInv log d) :
+    Contig (log (Disp.handleTag ctl inp lx d).1.ctl) := by
+  unfold Disp.handleTag
+  refine contig_bind (flushPendingText_T hlog d h) (flushPendingText_C hlog d h) ?_
+  intro d1 _ ⟨hd1, hp1, _⟩
+  refine contig_bind (adjustStep_T hlog lx d1 hd1 hp1) ?_ ?_
+  · split
+    · exact hd1.contig
+    · rw [(adjustFlagsForTag_TFrame (inp := inp) hlog d1 lx).1]; exact hd1.contig
+  · intro d2 _ ⟨hd2, hp2⟩
+    have hres := resumeEmission_T (ctl := ctl) lx d2 hd2 hp2
+    refine contig_bind (produceTag_T (inp := inp) hlog _ lx hres.2 hres.1) (produceTag_C hlog _ lx hres.2 hres.1) ?_
+    intro d3 _ ⟨hd3, _⟩
+    exact hd3.contig
+
+theorem startTagHint_C (hlog : Logging ctl log) (name : LocalName) (ns : Ns) (d : Disp γ) (h : TInv log d) :
+    Contig (log (Disp.startTagHint ctl name ns d).1.ctl) := by
+  unfold Disp.startTagHint
+  dsimp only
+  split <;> simp only [Disp.applyHintFlags, hlog.startTag] <;> exact h.contig
+
+theorem endTagHint_C (hlog : Logging ctl log) (name : LocalName) (d : Disp γ) (h : TInv log d) :
+    Contig (log (Disp.endTagHint ctl name d).1.ctl) := by
+  unfold Disp.endTagHint
+  refine contig_bind (flushPendingText_T hlog d h) (flushPendingText_C hlog d h) ?_
+  intro d1 _ ⟨hd1, _, _⟩
+  simp only [Disp.applyHintFlags, hlog.endTag]
+  exact hd1.contig
+
 /-- **The dispatcher's operations keep the joint invariant.** -/
-theorem dispOps_TV (hlog : Logging ctl log) : OpsView (dispOps ctl) inp pc (TV (γ := γ) log pc) where
+theorem dispOps_TV (hlog : Logging ctl log) :
+    OpsView (dispOps ctl) inp pc (TV (γ := γ) log pc) (fun d => Contig (log d.ctl)) where
   handleNonTag := fun ls e o k hk hok => handleNonTag_T hlog ls e o k hk () hok
   handleTag := by
     intro ls e t k hk
@@ -381,6 +552,11 @@ theorem dispOps_TV (hlog : Logging ctl log) : OpsView (dispOps ctl) inp pc (TV (
     exact ⟨fun hok => ⟨(this _ hok).1, (this _ hok).2⟩,
            fun hok ls => ⟨(this _ hok).1, notPending_adj (this _ hok).2⟩⟩
   toLex := fun k hk ls => ⟨hk.1, notPending_adj hk.2⟩
+  weaken := fun _ _ hk => hk.1.contig
+  handleNonTagE := fun ls e o k hk _ _ => handleNonTag_C hlog ls e o k hk
+  handleTagE := fun ls e t k hk _ _ => handleTag_C (inp := inp) hlog ⟨pc, ⟨ls, e⟩, t⟩ k hk.1
+  startTagHintE := fun n ns k hk _ _ => startTagHint_C hlog n ns k hk.1
+  endTagHintE := fun n k hk _ _ => endTagHint_C hlog n k hk.1
 
 end
 end LolHtml.Model
